@@ -56,6 +56,7 @@ AccVal(md, nd, s, id) ==
      [] s.k = "const" -> <<s.v>>
      [] s.k = "tyof" -> TypeOf(md, nd.a[s.v])
      [] s.k = "nameof" -> <<PoolNameOf[nd.a[s.v]]>>
+     [] s.k = "identof" -> IF PoolNameOf[nd.a[s.v]] \in PoolIdentifiers THEN <<PoolNameOf[nd.a[s.v]]>> ELSE Refused
      [] s.k = "elems" -> PoolElemsOf[nd.a[s.v]]
      [] s.k = "checked" -> IF HasLink(nd, s.l) THEN <<nd.links[s.l]>> ELSE Refused
      [] s.k = "optional" -> IF HasLink(nd, s.l) THEN <<nd.links[s.l]>> ELSE <<0>>
